@@ -602,6 +602,14 @@ func run(c Case, k *ev.Case) *ev.Failure {
 			}
 		}
 		lo -= ml[s.id]
+		// handlers run on the library's event dispatcher, some time after the exchange: wait for late ones before calling them lost
+		for dl := time.Now().Add(3 * time.Second); got < lo && time.Now().Before(dl); time.Sleep(2 * time.Millisecond) {
+			e2 := env.Events.Snapshot()
+			got = e2.UpResumed[s.name]
+			if !s.up {
+				got = e2.DownResumed[s.name]
+			}
+		}
 		if got > hi || got < lo {
 			return ev.Failf("C05.4 resumed-events", "stream %s was resumed successfully %d time(s) (of which %d responses may have been cut off with the link) but its resumed handler ran %d times", s.name, hi, ml[s.id], got).WithHistory(hist())
 		}
@@ -724,7 +732,9 @@ func resumeSettledOn(b *sim.Broker, inc *sim.Inc, s *streamRef) bool {
 	if dead.IsZero() {
 		return true
 	}
-	return b.T0.Add(time.Duration(at) * time.Microsecond).Add(5 * time.Millisecond).Before(dead)
+	// the response must have been out well before the link died: a client that has not got round to reading it yet (loaded
+	// machine) legitimately sees the connection error first
+	return b.T0.Add(time.Duration(at) * time.Microsecond).Add(250 * time.Millisecond).Before(dead)
 }
 
 func resumeResponseAt(b *sim.Broker, inc int, s *streamRef) (int64, bool) {
